@@ -223,6 +223,29 @@ func BuildLayout(spec *ModSpec) *Layout {
 			add(fmt.Sprintf("gset%d", i), t, nil, "gset", i, 0)
 		}
 	}
+	// the same object may be imported under two indexes: write through one, read through the other, in
+	// straight-line code of ONE function body (no call in between)
+	nAl := 0
+	for i := 0; i < l.NImpG && nAl < 12; i++ {
+		for j := 0; j < l.NImpG && nAl < 12; j++ {
+			gi, gj := l.Globals[i], l.Globals[j]
+			if i != j && gi.Mutable && gi.Type == gj.Type && gi.Type != wenc.FuncRef {
+				t := []wenc.ValType{gi.Type}
+				add(fmt.Sprintf("galias%d_%d", i, j), t, []wenc.ValType{gi.Type, gi.Type}, "galias", i, j)
+				nAl++
+			}
+		}
+	}
+	nAl = 0
+	for i := 0; i < l.NImpT && nAl < 2; i++ {
+		for j := 0; j < l.NImpT && nAl < 2; j++ {
+			if i != j && l.Tables[i].Elem == wenc.FuncRef && l.Tables[j].Elem == wenc.FuncRef {
+				add(fmt.Sprintf("talias%d_%d", i, j), []wenc.ValType{wenc.I32, wenc.I32}, []wenc.ValType{wenc.I32, wenc.I32}, "talias", i, j)
+				add(fmt.Sprintf("tgalias%d_%d", i, j), tI32, []wenc.ValType{wenc.I32, wenc.I32, wenc.I32}, "tgalias", i, j)
+				nAl++
+			}
+		}
+	}
 	if l.HasMem {
 		add("ld8", tI32, tI32, "ld8", 0, 0)
 		add("ld8far", tI32, tI32, "ld8far", 0, 0)
@@ -436,6 +459,14 @@ func Build(spec *ModSpec) ([]byte, *Layout) {
 			c.GlobalSet(A)
 		case "g2t":
 			c.LocalGet(0).GlobalGet(A).TableSet(B)
+		case "galias":
+			c.GlobalGet(B).LocalGet(0).GlobalSet(A).GlobalGet(B)
+		case "talias":
+			c.LocalGet(0).TableGet(B).RefIsNull().LocalGet(0)
+			refSelect(c, 1, l.Refable)
+			c.TableSet(A).LocalGet(0).TableGet(B).RefIsNull()
+		case "tgalias":
+			c.Prefixed(0xfc, 16).U32(B).RefNull(wenc.FuncRef).LocalGet(0).Prefixed(0xfc, 15).U32(A).Prefixed(0xfc, 16).U32(B)
 		case "ld8":
 			c.LocalGet(0).Mem(0x2d, 0, 0)
 		case "ld8far":
